@@ -4,7 +4,7 @@
    (next/cleanup completions with any values / errors / done in any order, stop, armed stop) and
    BOTH variants of the model unless a variant is named. *)
 From Coq Require Import ZArith List Bool Arith.
-From V Require Import Calc.StreamDefs Calc.StreamSpec Calc.StreamInv Calc.StreamMon Calc.StreamTop Calc.StreamProofs Calc.StreamUaf.
+From V Require Import Calc.StreamDefs Calc.StreamSpec Calc.StreamInv Calc.StreamInvAd Calc.StreamMon Calc.StreamTop Calc.StreamProofs Calc.StreamUaf.
 Import ListNotations.
 Import SCalc.
 Local Open Scope Z_scope.
@@ -131,6 +131,73 @@ Theorem C13_take_until_cleanup_ops_destroyed_once_refuted :
 Proof. exact tu_opdel_as_written. Qed.
 Print Assumptions C13_take_until_cleanup_ops_destroyed_once_refuted.
 
+(* ---- adapt_stream / next_adapt_stream / cleanup_adapt_stream, via_stream / typed_via_stream / on_stream, delay ----
+   All theorems above quantify over the enlarged grammar (SNextAdapt, SCleanupAdapt, SAdapt1, SAdapt2 with every
+   sender adaptor of the table [sadapt]); the definitions of via_stream / typed_via_stream / on_stream / delay
+   are the compositions the headers write (StreamDefs.v).  What the adaptors' definitions add: *)
+
+(* next_adapt_stream(s, then(f)) delivers map f of the source's elements (ending where f throws) ... *)
+Theorem C13_next_adapt_then_elements : forall vr c f s pre script, wf_ids s ->
+  prefix (feeds (x_tr (exec vr c (SNextAdapt (AThen f) s) pre script)))
+         (map_until f (sdenote s (src_hist (x_tr (exec vr c (SNextAdapt (AThen f) s) pre script))))).
+Proof. intros. apply (feeds_prefix_denote vr c (SNextAdapt (AThen f) s)). exact H. Qed.
+Print Assumptions C13_next_adapt_then_elements.
+
+Theorem C13_next_adapt_then_elements_exact : forall vr c f s pre script, wf_ids s -> lossless s = true ->
+  forall v, In (OVal v) (roots (x_tr (exec vr c (SNextAdapt (AThen f) s) pre script))) ->
+  feeds (x_tr (exec vr c (SNextAdapt (AThen f) s) pre script)) =
+  map_until f (sdenote s (src_hist (x_tr (exec vr c (SNextAdapt (AThen f) s) pre script)))).
+Proof. intros. eapply (root_value_elements_exact vr c (SNextAdapt (AThen f) s)); eauto. Qed.
+Print Assumptions C13_next_adapt_then_elements_exact.
+
+(* ... cleanup_adapt_stream, via_stream, typed_via_stream, on_stream and delay yield exactly the source's
+   elements, in order (a prefix under any timing of stop; all of them when the consumer completes with a
+   value and nothing below drops signals) *)
+Definition hops_only (w : stexpr -> stexpr) : Prop :=
+  (exists a, w = SCleanupAdapt a) \/ (exists sid, w = via_stream sid) \/ (exists sid, w = typed_via_stream sid) \/
+  (exists sid, w = on_stream sid) \/ (exists sid d, w = delay sid d).
+
+Theorem C13_scheduler_streams_elements : forall w, hops_only w -> forall vr c s pre script, wf_ids s ->
+  prefix (feeds (x_tr (exec vr c (w s) pre script))) (sdenote s (src_hist (x_tr (exec vr c (w s) pre script)))) /\
+  (lossless s = true -> forall v, In (OVal v) (roots (x_tr (exec vr c (w s) pre script))) ->
+   feeds (x_tr (exec vr c (w s) pre script)) = sdenote s (src_hist (x_tr (exec vr c (w s) pre script)))).
+Proof.
+  intros w Hw vr c s pre script W.
+  destruct Hw as [[a ->]|[[sid ->]|[[sid ->]|[[sid ->]|[sid [d ->]]]]]]; split;
+    match goal with
+    | |- prefix (feeds (x_tr (exec _ _ ?e _ _))) _ => exact (feeds_prefix_denote vr c e pre script W)
+    | |- _ -> forall v, In _ (roots (x_tr (exec _ _ ?e _ _))) -> _ =>
+        intros Hl v Hin; exact (root_value_elements_exact vr c e pre script W Hl v Hin)
+    end.
+Qed.
+Print Assumptions C13_scheduler_streams_elements.
+
+(* every completion of next() and of cleanup() of via_stream / typed_via_stream / delay is delivered from the
+   scheduler's context: the last event before the completion is the hop on that scheduler (the inner
+   completion o is re-delivered unchanged) *)
+Theorem C13_via_next_completes_on_scheduler : forall an ac ow pre r o t, hop_of an = Some t ->
+  b_out (ad_wrap an ac ow pre r) = Some (KN, o) ->
+  r_out r = Some (KN, o) /\ exists ev, b_ev (ad_wrap an ac ow pre r) = ev ++ [t].
+Proof. exact ad_next_completes_on_scheduler. Qed.
+Print Assumptions C13_via_next_completes_on_scheduler.
+
+Theorem C13_via_cleanup_completes_on_scheduler : forall an ac ow pre r o t, hop_of ac = Some t ->
+  b_out (ad_wrap an ac ow pre r) = Some (KC, o) ->
+  r_out r = Some (KC, o) /\ exists ev, b_ev (ad_wrap an ac ow pre r) = ev ++ [t].
+Proof. exact ad_cleanup_completes_on_scheduler. Qed.
+Print Assumptions C13_via_cleanup_completes_on_scheduler.
+
+(* on_stream: the inner next() / cleanup() is STARTED from the scheduler's context *)
+Theorem C13_on_stream_next_starts_on_scheduler : forall sid ac I si en,
+  exists ev, b_ev (ro_next (ad_ops (AOn sid) ac I) (BUn KAd si) en) = THop sid 0 :: r_ev (o_next I si en) ++ ev.
+Proof. exact ad_on_starts_on_scheduler. Qed.
+Print Assumptions C13_on_stream_next_starts_on_scheduler.
+
+Theorem C13_on_stream_cleanup_starts_on_scheduler : forall sid an I si,
+  exists ev, b_ev (ro_clean (ad_ops an (AOn sid) I) (BUn KAd si)) = THop sid 0 :: r_ev (o_clean I si) ++ ev.
+Proof. exact ad_on_cleanup_starts_on_scheduler. Qed.
+Print Assumptions C13_on_stream_cleanup_starts_on_scheduler.
+
 (* ---- the hypotheses are met by concrete non-trivial runs ------------------------------------------------ *)
 Definition ex_pipe : stexpr :=
   STakeUntil (SFilter PEven (STransform (FAdd 1) (SSrc 0 true))) 1 true.
@@ -156,3 +223,13 @@ Example ex_stop : feeds (x_tr (exec fixed (CReduce 0 RSum) ex_pipe 0
                   roots (x_tr (exec fixed (CReduce 0 RSum) ex_pipe 0
                           [EvNext 0 (OVal 1); EvStop; EvClean 0 ODone; EvClean 1 ODone])) = [OVal 2].
 Proof. vm_compute. auto. Qed.
+
+(* the adapt_stream family: via_stream over a filtered scripted source under on_stream, stop in the middle *)
+Definition ex_pipe2 : stexpr := on_stream 8 (via_stream 7 (SNextAdapt (AThen (FMul 2)) (SSrc 0 true))).
+Example ex2_wf : wf_ids ex_pipe2.
+Proof. unfold wf_ids, ex_pipe2. simpl. repeat constructor; simpl; intuition congruence. Qed.
+Example ex2_run : x_tr (exec fixed (CReduce 0 RSum) ex_pipe2 0 [EvNext 0 (OVal 3); EvStop; EvClean 0 ODone]) =
+  [XT (THop 8 0); XT (TNextStart 0 0 false); XT (TNextDone 0 0 (OVal 3)); XT (TCall (FMul 2) 3); XT (THop 7 0); XFeed 0 6;
+   XT (THop 8 0); XT (TNextStart 0 1 false); XT (TNextStopSeen 0 1); XT (TNextDone 0 1 ODone); XT (THop 7 0);
+   XT (THop 8 0); XT (TCleanupStart 0); XT (TCleanupDone 0 ODone); XT (TOpDel 0); XT (THop 7 0); XRoot (OVal 6)].
+Proof. vm_compute. reflexivity. Qed.
